@@ -177,7 +177,10 @@ Definition remove_field (f : field) (cur : value) : res (bool * value) :=
       | FIdx i =>
         let l := arr_of a in
         if (i <? 0) || (lenZ l <=? i) then Ok (false, cur)
-        else Ok (true, VSub d (Some (del_nth l (Z.to_nat i))))
+        else
+          (* fields.delAt: later entries move down and take the name of their new index *)
+          let l' := del_nth l (Z.to_nat i) in
+          Ok (true, VSub d (Some (firstn (Z.to_nat i) l' ++ renumber i (skipn (Z.to_nat i) l'))))
       end
     | _ => Ok (false, cur)      (* a nil: removal from a fresh empty config *)
     end
